@@ -108,7 +108,7 @@ func Execute(p Prop, c *Case, strict, padZero bool) *Result {
 		src.PadZero()
 	}
 	t0 := time.Now()
-	r := p.Run(c, src)
+	r := runGuarded(p, c, src)
 	r.WallUs = time.Since(t0).Microseconds()
 	r.Index = c.Index
 	if r.Name == "" {
@@ -119,6 +119,26 @@ func Execute(p Prop, c *Case, strict, padZero bool) *Result {
 		r.Infra = "replay diverged from the recorded tape"
 	}
 	return r
+}
+
+func runGuarded(p Prop, c *Case, src *vs.Src) (r *Result) {
+	defer func() {
+		if e := recover(); e != nil {
+			h, ok := e.(HangPanic)
+			if !ok {
+				panic(e)
+			}
+			r = &Result{Outcome: "watchdog"}
+			msg := fmt.Sprintf("task %s did not yield within the wall-clock watchdog (unfinished %v)", h.Task, h.Unfinished)
+			if p.ID() == "C09" {
+				// for C09 a task that never yields is the finding itself (confirmed by re-execution in the driver)
+				r.Violate("spin", "C09 spin", "%s", msg)
+			} else {
+				r.Infra = msg
+			}
+		}
+	}()
+	return p.Run(c, src)
 }
 
 func mustJSON(v interface{}) json.RawMessage {
@@ -206,7 +226,22 @@ func (w *World) Run() (string, []string) {
 	unf := w.K.Unfinished()
 	w.K.Shutdown()
 	w.Reason = reason
+	if reason == vs.Hang {
+		// a task is still running (or stuck) somewhere and may hold the library's locks: nothing of
+		// this run may be touched any more. Unwind to Execute.
+		name := "?"
+		if w.K.Hung != nil {
+			name = w.K.Hung.Name
+		}
+		panic(HangPanic{Task: name, Unfinished: unf})
+	}
 	return reason, unf
+}
+
+// HangPanic unwinds a property's Run when the wall-clock watchdog expired.
+type HangPanic struct {
+	Task       string
+	Unfinished []string
 }
 
 // Finish fills the generic parts of a result from the finished world:
